@@ -220,3 +220,29 @@ Proof.
   split; [apply gen_adv_WEEKLY_lemma|]. split; [apply gen_adv_DAILY_lemma|]. split; [apply gen_adv_HOURLY_lemma|].
   split; [apply gen_adv_MINUTELY_lemma|apply gen_adv_SECONDLY_lemma].
 Qed.
+
+(* ---------------------------------------------------------------- the prologue's WEEKLY+BYSETPOS
+   week start: init_state is "the generated week start, then rebuild and the initial time set" *)
+Lemma gen_week_start_lemma : forall rl,
+  init_state rl =
+  let hour := s_H rl in let minute := s_M rl in let second := s_S rl in
+  let '(year, month, day, wd) :=
+    gen_week_start rl (s_y rl) (s_m rl) (s_d rl) (Cal.weekday (s_y rl) (s_m rl) (s_d rl)) in
+  do ii <- rebuild rl ii_init year month;
+  do ts <-
+    (if freq rl <? HOURLY then
+       match timeset rl with Some l => Ok l | None => Err EType end
+     else if ((HOURLY <=? freq rl) && truthy (byhour rl) && negb (memZ hour (opt_list (byhour rl)))) ||
+             ((MINUTELY <=? freq rl) && truthy (byminute rl) && negb (memZ minute (opt_list (byminute rl)))) ||
+             ((SECONDLY <=? freq rl) && truthy (bysecond rl) && negb (memZ second (opt_list (bysecond rl))))
+          then Ok []
+          else gettimeset rl hour minute second);
+  Ok (mkSt year month day hour minute second wd ii ts (count rl) []).
+Proof.
+  intros rl. unfold init_state, gen_week_start. cbv zeta.
+  destruct ((freq rl =? WEEKLY) && truthy (bysetpos rl)); [|reflexivity].
+  destruct (negb ((Cal.weekday (s_y rl) (s_m rl) (s_d rl) - wkst rl) mod 7 =? 0)); [|reflexivity].
+  destruct (ymd_of_ord (Z.max (ord_of_ymd (s_y rl) (s_m rl) (s_d rl) -
+                               (Cal.weekday (s_y rl) (s_m rl) (s_d rl) - wkst rl) mod 7) 1)) as [[y m] d].
+  reflexivity.
+Qed.
